@@ -539,7 +539,11 @@ class olc_db final {
     /// to the current leaf.  An empty stack corresponds to a
     /// logically empty iterator and can be detected using !valid().
     /// The iterator for an empty tree is an empty stack.
+#ifdef UNODB_DETAIL_VERIF_FIXED_ITER_STACK
+    detail::verif_fixed_stack<stack_entry> stack_{};
+#else
     std::stack<stack_entry> stack_{};
+#endif
 
     /// A buffer into which visited encoded (binary comparable) keys
     /// are materialized by during the iterator traversal.  Bytes are
